@@ -57,7 +57,7 @@ func (k *c17) Setup(c *core.Ctx) (int, error) {
 	// thorough), so they are part of the domain.
 	k.minDig = -2
 	k.deep = true
-	return c.N(200, 2500), nil
+	return c.N(700, 6000), nil
 }
 
 func (*c17) Finish(c *core.Ctx) {
